@@ -293,6 +293,47 @@ pub fn run(ctx: &Ctx) -> Report {
         st.sample(i, n, || json!({"timestamp": s, "reference": format!("{:?}", iso::parse(s))}));
     });
 
+    // histories: every ordered pair from an alphabet of related strings parsed back to back on one thread —
+    // a well-formed timestamp and its look-alikes (separators removed / added / moved, zone dropped, case,
+    // blanks, another spelling of the same instant, the same fields with one digit changed); each judged alone
+    let hist: Vec<String> = {
+        let mut v: Vec<String> = Vec::new();
+        for base in ["20150830T123600Z", "2015-08-30T12:36:00Z", "2015-08-30T11:36:00-01:00", "20150830T133600+0100", "20150830T123600.500Z", "2015-08-30T12:36:00,25+00:00"] {
+            v.push(base.to_string());
+            v.push(base.replace(['-', ':'], ""));
+            v.push(base.replace('Z', ""));
+            v.push(base.replace('T', " "));
+            v.push(base.to_lowercase());
+            v.push(format!(" {}", base));
+            v.push(format!("{} ", base));
+            v.push(base.replacen("20", "20-", 1));
+            v.push(base.replacen("12", "13", 1));
+            v.push(base.replace('.', ","));
+            v.push(base[..base.len() - 1].to_string());
+        }
+        v.extend(["", "Z", "20150830", "20150830T", "20150830T123600", "2015-08-30", "20150830T123600ZZ", "２０150830T123600Z"].iter().map(|x| x.to_string()));
+        v.sort();
+        v.dedup();
+        v
+    };
+    let nh = hist.len() as u64;
+    let st_h = par_sweep(nh * nh, |i, st| {
+        let (x, y) = (&hist[(i / nh) as usize], &hist[(i % nh) as usize]);
+        for (step, s) in [x, y].into_iter().enumerate() {
+            let before = st.violations.len();
+            let label = eval(n * 4 + i, s, st);
+            if step == 1 && st.violations.len() > before {
+                if let Some(v) = st.violations.last_mut() {
+                    v.case["preceded_by"] = json!(x);
+                    v.what = format!("{} (right after another timestamp on the same thread)", v.what);
+                }
+            }
+            st.outcome(&format!("history:{}", label));
+        }
+        st.nontrivial(&("history", x, y));
+    });
+    st = st.merge(st_h);
+
     // end to end on both carriers (header: also with surrounding spaces)
     let st_e = par_sweep(n * 3, |i, st| {
         let s = &strings[(i / 3) as usize];
@@ -332,7 +373,7 @@ pub fn run(ctx: &Ctx) -> Report {
 
     Report {
         stats: st,
-        rule: "every value 00..99 of month, day, hour, minute, second, offset hour and offset minute (basic and extended form); 9 years x boundary instants; every day 00..32 of every month of 2015, 2016, 1900, 2000 in two forms; all 2^5 separator combinations; every offset hh(00..99) x mm(00..99) x sign (basic; extended for all in thorough); 12 zone designators; all 2^5 combinations of blank-padded / one-digit fields in four layouts; fractions of 0..12 and 13..10000 digits with '.' and ','; every string at edit distance 1 (insert/delete/substitute over 23 characters incl. 3 non-ASCII) from six bases (thorough: also every pair of substitutions and substitution+insertion on two bases); each string is evaluated through the unstable API (value and string-to-sign line compared with the reference parser) and end to end on the header carrier (bare and space-padded) and the query carrier. states = distinct reference instants + reject class; non-trivial = distinct strings".into(),
+        rule: "every value 00..99 of month, day, hour, minute, second, offset hour and offset minute (basic and extended form); 9 years x boundary instants; every day 00..32 of every month of 2015, 2016, 1900, 2000 in two forms; all 2^5 separator combinations; every offset hh(00..99) x mm(00..99) x sign (basic; extended for all in thorough); 12 zone designators; all 2^5 combinations of blank-padded / one-digit fields in four layouts; fractions of 0..12 and 13..10000 digits with '.' and ','; every string at edit distance 1 (insert/delete/substitute over 23 characters incl. 3 non-ASCII) from six bases (thorough: also every pair of substitutions and substitution+insertion on two bases); every ordered pair over ~70 related strings (six well-formed timestamps and their look-alikes: separators removed / added, zone dropped, case, blanks, one digit changed) parsed back to back on one thread; each string is evaluated through the unstable API (value and string-to-sign line compared with the reference parser) and end to end on the header carrier (bare and space-padded) and the query carrier. states = distinct reference instants + reject class; non-trivial = distinct strings".into(),
         bounds: json!({"strings": n}),
         exhaustive: true,
         assumptions: vec![
@@ -345,6 +386,9 @@ pub fn run(ctx: &Ctx) -> Report {
 pub fn replay(case: &Value) -> i32 {
     let s = case["timestamp"].as_str().unwrap_or("");
     let mut st = Stats::new();
+    if let Some(p) = case["preceded_by"].as_str() {
+        eval(0, p, &mut Stats::new());
+    }
     eval(0, s, &mut st);
     println!("timestamp={:?}\nreference: {:?}\nimplementation: {:?}", s, iso::parse(s), impl_parse(s));
     if st.violations.is_empty() {
